@@ -2,6 +2,11 @@ package main
 
 // C16: timestamps show the record's instant in the configured zone and layout.
 //
+// Besides Go's renderings of the candidates, every correspondence case carries the instant itself and its own
+// zone (offset, abbreviation): the Coq model of Go's layout language renders it and must give the OBSERVED text
+// byte for byte; the model's reader is compared with the instant (where the round-trip theorem applies) and with
+// Go's own time.Parse.
+//
 // Every cell emits ONE record through Entry.WriteThru with an explicit instant on a fresh
 // logger with recording writers, cuts the timestamp out of the record and checks it against
 // the DIRECT ORACLE (the statement written out in Go, independent of the Coq model):
@@ -111,13 +116,58 @@ func c16GenInstant(rg *Rng, zones []c16Zone, i int) c16Instant {
 	}
 }
 
+// instants at the edges of the calendar arithmetic: first and last day of the range, both sides of the
+// epoch, leap days (also of year 0 and 2000), the days around the missing leap days of 1900 and 2100, every
+// end of month of a leap and a non-leap year, with boundary sub-second parts; each in one of the zones
+func c16BoundaryInstants(rg *Rng, zones []c16Zone) []c16Instant {
+	type civ struct{ y, mo, d, h, mi, s, ns int }
+	cs := []civ{
+		{0, 1, 1, 0, 0, 0, 0}, {0, 2, 29, 23, 59, 59, 999999999}, {0, 3, 1, 0, 0, 0, 1}, {0, 12, 31, 23, 59, 59, 999999999},
+		{1, 1, 1, 0, 0, 0, 0}, {400, 12, 31, 12, 0, 0, 500000000}, {1582, 10, 10, 1, 2, 3, 4},
+		{1899, 12, 31, 23, 59, 59, 999999000}, {1900, 2, 28, 23, 59, 59, 999999999}, {1900, 3, 1, 0, 0, 0, 0},
+		{1969, 12, 31, 23, 59, 59, 999999999}, {1970, 1, 1, 0, 0, 0, 0}, {1970, 1, 1, 0, 0, 0, 1}, {1969, 12, 31, 0, 0, 0, 0},
+		{2000, 2, 29, 12, 0, 0, 0}, {2000, 3, 1, 0, 0, 0, 0}, {2000, 12, 31, 23, 59, 59, 100000000},
+		{2024, 2, 29, 0, 0, 0, 120000000}, {2100, 2, 28, 23, 59, 59, 0}, {2100, 3, 1, 0, 0, 0, 999},
+		{9999, 1, 1, 0, 0, 0, 0}, {9999, 12, 31, 23, 59, 59, 999999999}, {9996, 2, 29, 9, 9, 9, 9},
+	}
+	for _, y := range []int{2023, 2024} {
+		for mo := 1; mo <= 12; mo++ {
+			last := time.Date(y, time.Month(mo+1), 0, 0, 0, 0, 0, time.UTC).Day()
+			cs = append(cs, civ{y, mo, last, 23, 59, 59, 999999999}, civ{y, mo, 1, 0, 0, 0, 0})
+		}
+	}
+	var out []c16Instant
+	for i, c := range cs {
+		for k := 0; k < 2; k++ {
+			z := zones[(2*i+k*7)%len(zones)]
+			if k == 0 && i%3 == 0 {
+				z = zones[0] // UTC
+			}
+			loc, err := z.loc()
+			if err != nil {
+				continue
+			}
+			t := time.Date(c.y, time.Month(c.mo), c.d, c.h, c.mi, c.s, c.ns, loc)
+			if t.Year() < 0 || t.Year() > 9999 || t.UTC().Year() < 0 || t.UTC().Year() > 9999 {
+				continue
+			}
+			out = append(out, c16Instant{Sec: t.Unix(), Nsec: t.Nanosecond(), Zone: z})
+		}
+	}
+	_ = rg
+	return out
+}
+
 // ---- layouts ----
 // what a layout carries (written by hand for the layouts used here; the oracle needs it to
 // say what "the instant to the layout's precision" is)
 type c16LayInfo struct {
 	Year, MonthDay, Hour, Min, Sec bool
-	Frac                           int // digits kept (9 = nanoseconds)
-	Zone                           int // 0 none, 1 to the minute (Z07:00, -0700), 2 to the second (Z07:00:00)
+	Frac                           int  // digits kept (9 = nanoseconds)
+	Zone                           int  // 0 none, 1 to the minute (Z07:00, -0700), 2 to the second (Z07:00:00), 3 to the hour (Z07, -07)
+	YY                             bool // two-digit year only: read back as 19yy from 69 on, else 20yy
+	YDay                           bool // the date is carried by the day of the year (002, __2), not by month and day
+	NoParse                        bool // carries a zone abbreviation (MST) or a form Go's own Parse does not read back: rendering checked, parse-back not asked
 }
 
 const c16LayoutZoneSec = "2006-01-02T15:04:05.000000000Z07:00:00"
@@ -137,7 +187,34 @@ var c16LayInfos = map[string]c16LayInfo{
 	"15:04:05":                {Hour: true, Min: true, Sec: true},
 	time.StampMicro:           {MonthDay: true, Hour: true, Min: true, Sec: true, Frac: 6},
 	c16LayoutZoneSec:          {Year: true, MonthDay: true, Hour: true, Min: true, Sec: true, Frac: 9, Zone: 2},
+	// element sweep (every element of Go's layout language at least once)
+	time.RFC822Z:  {YY: true, MonthDay: true, Hour: true, Min: true, Zone: 1},
+	time.Layout:   {YY: true, MonthDay: true, Hour: true, Min: true, Sec: true, Zone: 1},
+	time.RFC850:   {NoParse: true},
+	time.UnixDate: {NoParse: true},
+	time.RFC1123:  {NoParse: true},
+	"2006-1-2 3:4:5 pm -07":                              {Year: true, MonthDay: true, Hour: true, Min: true, Sec: true, Zone: 3},
+	"Monday, January 2 2006 15:04:05.000000000 Z0700":    {Year: true, MonthDay: true, Hour: true, Min: true, Sec: true, Frac: 9, Zone: 1},
+	"2006-01-02T15:04:05,000Z07":                         {Year: true, MonthDay: true, Hour: true, Min: true, Sec: true, Frac: 3, Zone: 3},
+	"2006-002 15:04:05.999 -07:00:00":                    {Year: true, MonthDay: true, YDay: true, Hour: true, Min: true, Sec: true, Frac: 3, Zone: 2},
+	"2006 __2 15:04:05.99 -070000":                       {Year: true, MonthDay: true, YDay: true, Hour: true, Min: true, Sec: true, Frac: 2, Zone: 2},
+	time.StampMilli:                                      {MonthDay: true, Hour: true, Min: true, Sec: true, Frac: 3},
+	"2006-01-02 15:04:05.999999 Z070000":                 {Year: true, MonthDay: true, Hour: true, Min: true, Sec: true, Frac: 6, Zone: 2},
+	"Mon Jan 2 15:04:05,9 -07:00 2006":                   {Year: true, MonthDay: true, Hour: true, Min: true, Sec: true, Frac: 1, Zone: 1},
+	"06/1/2 03:04PM":                                     {YY: true, MonthDay: true, Hour: true, Min: true},
+	"_2006-01-02/15.04.05":                               {Year: true, MonthDay: true, Hour: true, Min: true, Sec: true},
+	"Jane's Month: Mondays, 2006-01-02 15h04m05s":        {Year: true, MonthDay: true, Hour: true, Min: true, Sec: true},
+	"05.0000000000 2006":                                 {NoParse: true},
+	"2006-01-02T15:04:05.999999999-07:00":                {Year: true, MonthDay: true, Hour: true, Min: true, Sec: true, Frac: 9, Zone: 1},
+	"02/01/2006 15:04:05.00 -0700 MST":                   {NoParse: true},
 }
+
+// layouts of the element sweep (beside the grid's)
+var c16SweepLayouts = []string{time.RFC822Z, time.Layout, time.RFC850, time.UnixDate, time.RFC1123,
+	"2006-1-2 3:4:5 pm -07", "Monday, January 2 2006 15:04:05.000000000 Z0700", "2006-01-02T15:04:05,000Z07",
+	"2006-002 15:04:05.999 -07:00:00", "2006 __2 15:04:05.99 -070000", time.StampMilli, "2006-01-02 15:04:05.999999 Z070000",
+	"Mon Jan 2 15:04:05,9 -07:00 2006", "06/1/2 03:04PM", "_2006-01-02/15.04.05", "Jane's Month: Mondays, 2006-01-02 15h04m05s",
+	"05.0000000000 2006", "2006-01-02T15:04:05.999999999-07:00", "02/01/2006 15:04:05.00 -0700 MST"}
 
 // custom layouts of the grid ("" = SetTimeFormat never called)
 var c16Layouts = []string{"", time.RFC3339Nano, time.Kitchen, "2006-01-02 15:04:05.000", time.RFC1123Z, "15:04:05", time.StampMicro, c16LayoutZoneSec}
@@ -274,6 +351,11 @@ func c16Expect(w time.Time, li c16LayInfo) c16Fields {
 	f := c16Fields{Y: 0, Mo: 1, D: 1}
 	if li.Year {
 		f.Y = w.Year()
+	} else if li.YY {
+		f.Y = 2000 + w.Year()%100
+		if w.Year()%100 >= 69 {
+			f.Y = 1900 + w.Year()%100
+		}
 	}
 	if li.MonthDay {
 		f.Mo, f.D = int(w.Month()), w.Day()
@@ -301,6 +383,8 @@ func c16Expect(w time.Time, li c16LayInfo) c16Fields {
 		f.Off, f.HasOff = off/60*60, true
 	case 2:
 		f.Off, f.HasOff = off, true
+	case 3:
+		f.Off, f.HasOff = off/3600*3600, true
 	}
 	return f
 }
@@ -477,11 +561,16 @@ func c16One(r *Run, x *c16Ctx, c c16Cell, kind string) {
 	if goFormatDefect {
 		r.Dist["parse-back=skipped(go-format-subminute-negative-offset)"]++
 	}
+	if li, known := c16LayInfos[expLayout]; !known {
+		must(fmt.Errorf("C16: layout %q has no precision entry", expLayout))
+	} else if li.NoParse {
+		// a zone abbreviation does not determine an offset and Go's own Parse reads only some abbreviations:
+		// zone, layout, text and framing are checked, the parse-back clause is not asked of these layouts
+		r.Dist["parse-back=not-asked(abbreviation-or-unreadable-layout)"]++
+		goFormatDefect = true
+	}
 	if cut && !failed && !goFormatDefect {
-		li, known := c16LayInfos[expLayout]
-		if !known {
-			must(fmt.Errorf("C16: layout %q has no precision entry", expLayout))
-		}
+		li := c16LayInfos[expLayout]
 		var parsed time.Time
 		var perr error
 		if li.Zone != 0 {
@@ -498,7 +587,7 @@ func c16One(r *Run, x *c16Ctx, c c16Cell, kind string) {
 			}
 			// the strong form where the layout carries date, time and a zone that the text can express
 			_, off := expT.Zone()
-			if li.Year && li.MonthDay && li.Sec && li.Zone != 0 && (li.Zone == 2 || off%60 == 0) {
+			if li.Year && li.MonthDay && li.Sec && li.Zone != 0 && (li.Zone == 2 || (li.Zone == 1 && off%60 == 0) || (li.Zone == 3 && off%3600 == 0)) {
 				unit := time.Duration(1000000000)
 				for i := 0; i < li.Frac; i++ {
 					unit /= 10
@@ -575,7 +664,44 @@ func c16One(r *Run, x *c16Ctx, c c16Cell, kind string) {
 	if !cut {
 		obs = "?" // never a framed timestamp: the model disagrees, the oracle has flagged it
 	}
-	term := fmt.Sprintf("mk %s %s %s %s %s %s", utcT, layT, cZ(flagsNow), c.Shape, cList(cands), cStr(obs))
+	// the instant and its own zone, for the model of Go's layout language; which route the model must
+	// take; whether layout and zone are in the domain of the round-trip theorem (determined here from the
+	// hand-written layout table, independently of the Coq predicate); what Go's own Parse reads
+	ownName, ownOff := inst.Zone()
+	inYears := func(t time.Time) bool { return t.Year() >= 0 && t.Year() <= 9999 }
+	modelRoute := inYears(expT) && expOff > -360000 && expOff < 360000
+	li := c16LayInfos[expLayout]
+	roundtrip := modelRoute && !li.NoParse && !li.YDay && li.Year && li.MonthDay && li.Hour && li.Min && li.Sec && li.Zone != 0
+	switch li.Zone {
+	case 1:
+		roundtrip = roundtrip && expOff%60 == 0
+	case 2:
+		roundtrip = roundtrip && !(expOff < 0 && expOff > -60)
+	case 3:
+		roundtrip = roundtrip && expOff%3600 == 0
+	}
+	goParse := "None"
+	if cut && !li.NoParse {
+		if p, err := time.Parse(expLayout, text); err == nil {
+			_, poff := p.Zone()
+			goParse = cSome(fmt.Sprintf("(%s, %s, %s)", cZ(p.Unix()), cZ(int64(p.Nanosecond())), cZ(int64(poff))))
+			r.Dist["go-parse=read"]++
+		} else {
+			r.Dist["go-parse=refused"]++
+		}
+	}
+	if modelRoute {
+		r.Dist["route=model+candidate"]++
+	} else {
+		r.Dist["route=candidate-only"]++
+	}
+	if roundtrip {
+		r.Dist["roundtrip-theorem-domain=in"]++
+	} else {
+		r.Dist["roundtrip-theorem-domain=out"]++
+	}
+	term := fmt.Sprintf("mk %s %s %s %s %s %s %s %s %s %s %s %s %s", utcT, layT, cZ(flagsNow), c.Shape, cList(cands), cStr(obs),
+		cZ(c.Inst.Sec), cZ(int64(c.Inst.Nsec)), cZ(int64(ownOff)), cStr(ownName), cBool(modelRoute), cBool(roundtrip), goParse)
 	r.AddCase(term, c, nontrivial, canon)
 }
 
@@ -608,7 +734,7 @@ func runC16(r *Run) {
 	defer resetProcess(snap)
 	r.ShardSize = 250
 	r.Coq("Require Import Verif.Model.Base Verif.Model.Decision Verif.Model.Mode Verif.Corr.C16.", "case", "ok")
-	r.Rule = "cells = instant (own-zone and UTC year in 0..9999, any nanosecond part; zones: UTC, fixed offsets incl. +05:45, -03:30, +14:00, -12:00 and offsets with seconds, named IANA zones when the zoneinfo is available) x 8 date/time/microseconds combinations x local-time flag x 3 UTC states (never set, SetUTCMode(true), SetUTCMode(false)) x 8 layout settings (never set + 7 custom incl. RFC3339Nano, Kitchen, millisecond digits, RFC1123Z numeric zone, StampMicro, zone with seconds) x 3 formats, each one record through Entry.WriteThru with the instant; plus argument-list forms of SetUTCMode/SetTimeFormat (no argument, several, empty strings) through Set*, New(With*) and With* children; quick: the whole factor grid once with a different instant per cell, thorough: the whole grid for every instant; direct oracle = zone and layout per the statement, text == instant.In(zone).Format(layout), framing, time.Parse gives the instant's wall-clock fields (and zone offset) to the layout's precision and the absolute instant where the layout has date, time and zone; non-trivial = non-UTC zone with a sub-second part; distinct by (instant, zone, flags, utc arguments, layout arguments, form, format)"
+	r.Rule = "cells = instant (own-zone and UTC year in 0..9999, any nanosecond part; zones: UTC, fixed offsets incl. +05:45, -03:30, +14:00, -12:00 and offsets with seconds, named IANA zones when the zoneinfo is available) x 8 date/time/microseconds combinations x local-time flag x 3 UTC states (never set, SetUTCMode(true), SetUTCMode(false)) x 8 layout settings (never set + 7 custom incl. RFC3339Nano, Kitchen, millisecond digits, RFC1123Z numeric zone, StampMicro, zone with seconds) x 3 formats, each one record through Entry.WriteThru with the instant; plus argument-list forms of SetUTCMode/SetTimeFormat (no argument, several, empty strings) through Set*, New(With*) and With* children; quick: the whole factor grid once with a different instant per cell, thorough: the whole grid for every instant; direct oracle = zone and layout per the statement, text == instant.In(zone).Format(layout), framing, time.Parse gives the instant's wall-clock fields (and zone offset) to the layout's precision and the absolute instant where the layout has date, time and zone; plus an element sweep (31 layouts covering every element of Go's layout language, on boundary instants - both ends of the year range, both sides of the epoch, leap days, missing leap days of 1900/2100, every end of month - and random ones); correspondence: the model of Go's layout language (Model/TimeFmt.v) renders the instant with the layout and in the zone the regenerated decisions select and must give the observed text byte for byte (route model+candidate; candidate-only where the instant is outside the model's domain), the specification-side reader must return the instant where the round-trip theorem's hypotheses hold and agree with time.Parse wherever that reads the text; layouts with a zone abbreviation are rendered and compared but parse-back is not asked of them; non-trivial = non-UTC zone with a sub-second part; distinct by (instant, zone, flags, utc arguments, layout arguments, form, format)"
 	zones := c16Zones(r)
 	nInst := r.N(48, 100)
 	var insts []c16Instant
@@ -655,6 +781,34 @@ func runC16(r *Run) {
 	r.Extra["factor_grid"] = "8 dt x 2 local x 3 utc states x 8 layout settings x 3 formats = 1152 cells, all covered (per instant in the thorough tier)"
 	r.Extra["instants"] = len(insts)
 
+	// element sweep: every element of Go's layout language, on boundary and random instants
+	coqEvery = 1
+	bound := c16BoundaryInstants(r.R, zones)
+	r.Extra["boundary_instants"] = len(bound)
+	sweep := append(append([]string{}, c16SweepLayouts...), c16Layouts[1:]...)
+	sweep = append(sweep, c16DefaultLayouts...)
+	nSweep := r.N(len(bound)+len(sweep)*6, len(bound)*len(sweep)+len(sweep)*60)
+	for i := 0; i < nSweep; i++ {
+		var in c16Instant
+		var lay string
+		switch {
+		case r.Thorough() && i < len(bound)*len(sweep):
+			in, lay = bound[i%len(bound)], sweep[i/len(bound)]
+		case i < len(bound):
+			in, lay = bound[i], sweep[r.R.Intn(len(sweep))]
+		default:
+			in, lay = insts[r.R.Intn(len(insts))], sweep[i%len(sweep)]
+			if r.R.Chance(30) {
+				in = bound[r.R.Intn(len(bound))]
+			}
+		}
+		c := c16Cell{Inst: in, Base: c16Bases[r.R.Intn(len(c16Bases))], DT: r.R.Intn(8), Local: r.R.Bool(), UTC: c16UTCStates[r.R.Intn(3)],
+			Layout: &[]string{lay}, Shape: c16Shapes[r.R.Intn(3)], Form: forms[r.R.Intn(3)], Level: int(slog.WarnLevel)}
+		cellNo = 0
+		c16One(r, x, c, "element-sweep")
+	}
+	r.Extra["sweep_layouts"] = sweep
+
 	// argument-list forms
 	coqEvery = 1
 	utcForms := []*[]bool{{}, {true, false}, {false, true}, {false, false, true}, {true, true, false}}
@@ -677,6 +831,8 @@ func runC16(r *Run) {
 		cellNo = 0
 		c16One(r, x, c, "argument-forms")
 	}
+	r.Extra["routes"] = map[string]int{"model+candidate": r.Dist["route=model+candidate"], "candidate-only": r.Dist["route=candidate-only"],
+		"reader-vs-instant(round-trip-domain)": r.Dist["roundtrip-theorem-domain=in"], "reader-vs-time.Parse": r.Dist["go-parse=read"]}
 }
 
 func replayC16(r *Run, file string) {
